@@ -489,6 +489,9 @@ class inherit_priority:
         import redun.scheduler as RS
         ctl = self.ctl
         self.orig = orig = RS.Job.collapse
+        self.orig_init = orig_init = RS.Job.__init__
+        ctl._cause = None
+        ctl._ncaused = 0
 
         def collapse(job, other_job):
             p, q = ctl.path(job), ctl.path(other_job)
@@ -496,12 +499,22 @@ class inherit_priority:
                 other_job._vpath = p
             return orig(job, other_job)
 
+        def init(job, *a, **k):
+            orig_init(job, *a, **k)
+            if ctl._cause is not None:
+                # a job created while the rejection of job X is being processed (the recover task of a `catch`): in the
+                # depth-first order it comes right after X's subtree, before the later siblings of X
+                ctl._ncaused += 1
+                job._vpath = ctl.path(ctl._cause) + (10 ** 6 + ctl._ncaused,)
+
         RS.Job.collapse = collapse
+        RS.Job.__init__ = init
         return self
 
     def __exit__(self, *exc):
         import redun.scheduler as RS
         RS.Job.collapse = self.orig
+        RS.Job.__init__ = self.orig_init
         return False
 
 
@@ -528,7 +541,11 @@ def run_step(rh, st):
         if job is not None and job.args is not None and job.recording_provenance():
             i = int(job.task.fullname.rsplit(".t", 1)[1])
             rejected.append((i, st["code"][i][0], rh.val_key(job.args[0][0])))
-        return orig_reject(job, error, *a, **k)
+        prev, ctl._cause = getattr(ctl, "_cause", None), job
+        try:
+            return orig_reject(job, error, *a, **k)
+        finally:
+            ctl._cause = prev
 
     sched._reject_job_main_thread = reject_tap
     with inherit_priority(ctl):
@@ -540,6 +557,16 @@ def run_step(rh, st):
     ctl2 = make_ctl()
     fresh_path = os.path.join(rh.dir, "fresh.db")
     sched2 = ctl_sched.make_scheduler(ctl2, db_uri=rh.env.empty_db(fresh_path))
+    orig_reject2 = sched2._reject_job_main_thread
+
+    def reject_tap2(job, error, *a, **k):
+        prev, ctl2._cause = getattr(ctl2, "_cause", None), job
+        try:
+            return orig_reject2(job, error, *a, **k)
+        finally:
+            ctl2._cause = prev
+
+    sched2._reject_job_main_thread = reject_tap2
     with inherit_priority(ctl2):
         status2, payload2 = ctl2.run(sched2, rh.root_expr(mod, st["root"]))
     fresh = rh.res_str(status2, payload2)
@@ -684,6 +711,13 @@ def corpus():
         [dict(code={0: (0, False), 1: (0, False), 2: (0, False)}, fs={0: 1, 1: 1}, root=(0, 0)),
          dict(code={0: (0, False), 1: (0, False), 2: (1, False)}, fs={0: 1, 1: 1}, root=(0, 0), edits=[["body", 2, 1]]),
          dict(code={0: (0, False), 1: (0, False), 2: (0, False)}, fs={0: 1, 1: 1}, root=(0, 0), edits=[["revert", 2, 0]])])
+    # the recover job of a catch is created late (after the caught job failed) but runs before the later siblings
+    out["recover-before-later-sibling"] = H(
+        [("I", "src"), ("R", "src"), ("I", "src"), ("I", "src")],
+        [[("ret", ("add", ("catch", C(2, A), 1, 1), C(3, ("add", A, L(1)))))], [("ret", C(3, L(5)))], [("raise", 1)], [("raise", 0), ("ret", A)]],
+        [dict(code={0: (0, False), 1: (0, False), 2: (0, False), 3: (0, False)}, fs={0: 1, 1: 1}, root=(0, 0)),
+         dict(code={0: (0, False), 1: (0, False), 2: (0, False), 3: (0, False)}, fs={0: 1, 1: 1}, root=(0, 0)),
+         dict(code={0: (0, False), 1: (0, False), 2: (0, False), 3: (1, False)}, fs={0: 1, 1: 1}, root=(0, 0), edits=[["body", 3, 1]])])
     # edit / revert / bump of a leaf under two levels of cached single reductions
     out["edit-revert-bump"] = H(
         [("I", "src"), ("I", "ver"), ("I", "ver")],
